@@ -6,6 +6,8 @@ import (
 	"math"
 	"os"
 	"path/filepath"
+	"regexp"
+	"strconv"
 	"strings"
 
 	fzf "github.com/junegunn/fzf/src"
@@ -23,6 +25,12 @@ type c17OptCase struct {
 	LastName  string `json:"last_name,omitempty"`
 	LastValue string `json:"last_value,omitempty"`
 	LastIndex int    `json:"last_index,omitempty"` // index in Args of that occurrence
+	// display-mode cases (c17mode.go): the same three layers as lists of UNITS (an option with its value words); when
+	// present, File/Env/Args are derived from them and the expectation is computed from the units
+	FileU [][]string `json:"file_units,omitempty"`
+	EnvU  [][]string `json:"env_units,omitempty"`
+	ArgsU [][]string `json:"args_units,omitempty"`
+	Proc  bool       `json:"proc,omitempty"` // also run the fzf binary inside a (fake) tmux
 }
 
 func c17Subst(c *Ctx, ws []string) []string {
@@ -47,6 +55,52 @@ type c17OptResult struct {
 	Fields []Val
 	Keymap string
 	Expect string
+	HAfter bool // model only: the boolean of the documented display-mode rule (OptionSpec.F_HAFTER)
+}
+
+const (
+	c17FTmux      = 63
+	c17FTmuxIdx   = 64
+	c17FHeightIdx = 65
+	c17NFields    = 66 // observable fields of the implementation; the model sends one more (F_HAFTER)
+)
+
+// fzf.Run (core.go): the tmux popup is started iff opts.Tmux != nil && opts.Tmux.index >= opts.Height.index
+func c17Popup(fs []Val) bool {
+	return len(fs) >= c17NFields && len(fs[c17FTmux].L) > 0 && fs[c17FTmuxIdx].I >= fs[c17FHeightIdx].I
+}
+
+var c17TmuxRe = regexp.MustCompile(`^(nil|&tmuxOptions\{width:sizeSpec\{size:([^;]*);percent:(true|false);\};height:sizeSpec\{size:([^;]*);percent:(true|false);\};position:(\d+);index:(-?\d+);border:(true|false);\});`)
+var c17HeightIdxRe = regexp.MustCompile(`^heightSpec\{size:[^;]*;percent:(?:true|false);auto:(?:true|false);inverse:(?:true|false);index:(-?\d+);\};`)
+
+// the display-mode part of a configuration, read off the canonical dump (hook VerifDumpOptions):
+// (value of --tmux or (), Tmux.index or 0, Height.index); a size that is not an integer is sent as -999 (outside the model)
+func c17ModeFields(o *fzf.Options) []Val {
+	d := fzf.VerifDumpOptions(o)
+	var tm, hm []string
+	if rest, ok := c17DumpTop(d, "Tmux"); ok {
+		tm = c17TmuxRe.FindStringSubmatch(rest)
+	}
+	if rest, ok := c17DumpTop(d, "Height"); ok {
+		hm = c17HeightIdxRe.FindStringSubmatch(rest)
+	}
+	if tm == nil || hm == nil {
+		return []Val{L(I(-7)), I(-7), I(-7)} // the shape of Options changed: never equals a model value
+	}
+	hidx, _ := strconv.Atoi(hm[1])
+	if tm[1] == "nil" {
+		return []Val{L(), I(0), I(hidx)}
+	}
+	size := func(sz, pc string) Val {
+		f, err := strconv.ParseFloat(sz, 64)
+		if err != nil || f != math.Trunc(f) || math.Abs(f) > 1e15 {
+			return L(I(-999), B(pc == "true"))
+		}
+		return L(I(int(f)), B(pc == "true"))
+	}
+	pos, _ := strconv.Atoi(tm[6])
+	tidx, _ := strconv.Atoi(tm[7])
+	return []Val{L(L(I(pos), size(tm[2], tm[3]), size(tm[4], tm[5]), B(tm[8] == "true"))), I(tidx), I(hidx)}
 }
 
 func c17B(b bool) Val { return B(b) }
@@ -118,6 +172,7 @@ func c17ImplFields(o *fzf.Options) ([]Val, string, string) {
 		c17B(o.FileWord), c17B(o.CursorLine), c17B(o.ClearOnExit), c17B(o.Unicode), c17B(o.Ambidouble), Bytes(o.InfoCommand),
 		Bytes(o.WithShell), Bytes(v.PreviewCmd), c17B(o.ForceTtyIn),
 	}
+	fs = append(fs, c17ModeFields(o)...)
 	return fs, c17KeymapOfImpl(v.Keymap), c17KeysOfImpl(v.Expect)
 }
 
@@ -126,7 +181,7 @@ var c17FieldNames = []string{"Fuzzy", "Extended", "Phony", "Inputless", "Case", 
 	"Exit0", "ReadZero", "Print0", "PrintQuery", "Query", "Filter", "Sync", "History", "HistoryMax", "Header", "HeaderLines",
 	"Listen", "Unsafe", "Walker", "WalkerRoot", "WalkerSkip", "Prompt", "Ghost", "Tabstop", "HscrollOff", "ScrollOff", "Gap",
 	"Wrap", "Mouse", "Bold", "Black", "ExitOpt", "HeaderFirst", "Hscroll", "KeepRight", "MultiLine", "FileWord", "CursorLine",
-	"ClearOnExit", "Unicode", "Ambidouble", "InfoCommand", "WithShell", "Preview", "ForceTtyIn"}
+	"ClearOnExit", "Unicode", "Ambidouble", "InfoCommand", "WithShell", "Preview", "ForceTtyIn", "Tmux", "Tmux.index", "Height.index"}
 
 const c17HistMax = 31
 
@@ -153,6 +208,27 @@ func c17ImplParse(c *Ctx, file []string, hasFile bool, env []string, args []stri
 	}
 	fs, km, ex := c17ImplFields(o)
 	return c17OptResult{Status: "ok", Fields: fs, Keymap: km, Expect: ex}
+}
+
+type c17RawResult struct {
+	opts *fzf.Options
+	err  error
+}
+
+// as c17ImplParse, but hands back the Options value itself (panics are the caller's business)
+func c17ImplParseRaw(c *Ctx, file []string, hasFile bool, env []string, args []string) c17RawResult {
+	os.Unsetenv("NO_COLOR")
+	os.Unsetenv("RUNEWIDTH_EASTASIAN")
+	if hasFile {
+		p := filepath.Join(c.Work, "c17-opts-file")
+		os.WriteFile(p, []byte(c17Quote(file)+"\n"), 0600)
+		os.Setenv("FZF_DEFAULT_OPTS_FILE", p)
+	} else {
+		os.Unsetenv("FZF_DEFAULT_OPTS_FILE")
+	}
+	os.Setenv("FZF_DEFAULT_OPTS", c17Quote(env))
+	o, err := fzf.ParseOptions(true, args)
+	return c17RawResult{o, err}
 }
 
 func c17IsDir(p string) bool {
@@ -206,7 +282,12 @@ func c17ModelParse(c *Ctx, file []string, hasFile bool, env []string, args []str
 		if len(fs) > c17HistMax && len(fs[c17HistMax-1].L) == 0 {
 			fs[c17HistMax] = I(0) // History.maxSize does not exist without a History
 		}
-		return c17OptResult{Status: "ok", Fields: fs, Keymap: c17KeymapOfVal(mv.L[1].L[1]), Expect: c17KeysOfVal(mv.L[1].L[2])}
+		hafter := false
+		if len(fs) == c17NFields+1 {
+			hafter = fs[c17NFields].I != 0
+			fs = fs[:c17NFields]
+		}
+		return c17OptResult{Status: "ok", Fields: fs, Keymap: c17KeymapOfVal(mv.L[1].L[1]), Expect: c17KeysOfVal(mv.L[1].L[2]), HAfter: hafter}
 	}
 	return c17OptResult{Status: "MODEL-CRASH " + mv.String()}
 }
@@ -238,6 +319,9 @@ func c17DiffOpt(a, b c17OptResult, skip map[int]bool) string {
 func c17CheckOpt(c *Ctx, cs c17Case) {
 	rep := c.Rep
 	oc := cs.Opt
+	if oc.FileU != nil || oc.EnvU != nil || oc.ArgsU != nil {
+		oc.File, oc.Env, oc.Args = c17FlattenWords(oc.FileU), c17FlattenWords(oc.EnvU), c17FlattenWords(oc.ArgsU)
+	}
 	file, env, args := c17Subst(c, oc.File), c17Subst(c, oc.Env), c17Subst(c, oc.Args)
 	impl := c17ImplParse(c, file, oc.HasFile, env, args)
 	rep.ImplTraces++
@@ -281,9 +365,18 @@ func c17CheckOpt(c *Ctx, cs c17Case) {
 		rep.Count("args:with-env")
 	}
 	rep.Sample(cs)
+	if impl.Status != "ok" && (oc.FileU != nil || oc.EnvU != nil || oc.ArgsU != nil) {
+		// every unit of a display-mode case is a documented option with a value inside its documented grammar
+		rep.SpecChecks++
+		rep.Disagreement(Disagreement{Kind: "spec", Name: "mode_accepts", Input: cs, Impl: "error: " + impl.Err,
+			Expect: "a configuration (every option and value of the case is documented)"})
+	}
 	if impl.Status != "ok" {
 		return
 	}
+	// (5a) display mode: the later of --tmux / --height decides, the command line being later than the environment,
+	// which is later than the options file
+	c17ModeChecks(c, cs, impl, model, env, args)
 	// (5a) last_wins: the final occurrence decides
 	// hypothesis of last_wins: the vector before the final occurrence parses on its own
 	// (otherwise its last option swallows the occurrence as a value)
@@ -370,7 +463,7 @@ var c17Opts = []c17OptGen{
 		"--print-query", "--no-print-query", "--sync", "--no-sync", "--async", "--no-history", "--no-header", "--no-header-lines",
 		"--header-first", "--no-header-first", "--no-gap", "--no-preview", "--no-height", "--unicode", "--no-unicode", "--ambidouble",
 		"--no-ambidouble", "--no-listen", "--no-listen-unsafe", "--clear", "--no-clear", "--force-tty-in", "--no-force-tty-in", "--",
-		"--man", "--bash", "--zsh", "--fish", "-h", "--help", "--version", "--no-expect"}, kind: 0},
+		"--man", "--bash", "--zsh", "--fish", "-h", "--help", "--version", "--no-expect", "--no-tmux", "--no-height"}, kind: 0},
 	{names: []string{"-q", "--query"}, kind: 1, val: c17Text},
 	{names: []string{"-f", "--filter"}, kind: 1, val: c17Text},
 	{names: []string{"--algo"}, kind: 1, val: c17Const("v1", "v2", "v2", "v3", "", "V1")},
@@ -409,6 +502,9 @@ var c17Opts = []c17OptGen{
 	}},
 	{names: []string{"-s", "--sort", "-m", "--multi", "--gap"}, kind: 2, val: c17Int},
 	{names: []string{"--listen", "--listen-unsafe"}, kind: 3, val: c17Const("6266", "localhost:6266", ":80", "0.0.0.0:1", "a:b:c", "65536", "-1", "x", "", "host:", "[::1]:80")},
+	{names: []string{"--tmux"}, kind: 3, val: c17Const("center", "top,40%", "left,30", "70%", "80%,40%", "bottom,80%,40%", "center,80%,border-native",
+		"border-native", "", "x", "right:50%", "10,20,30", "101%", "up,5,5,5", "a,b,c,d,e", "left,", ",50%", "50%,", "top,bottom", "center,center",
+		"40%,border-native,50%", "border-native,border-native", "-5%", "5.0", "5%%", "down,0", "right,100%,1", "Center", "top,,40%", "left::20%")},
 	{names: []string{"--walker-root"}, kind: 4},
 }
 
@@ -594,6 +690,13 @@ var c17OddValues = []string{"", "0", "1", "-1", "10", "50%", "~50%", "-5", "100%
 	"│", "┃x", "xyz", "xy", "││", "  ", "\x1b[31m"}
 
 func c17GenFuzz(r *RNG) c17OptCase {
+	// one value in seven is a text measured in columns: clusters of every width, zero-width ones at either end (c17display.go)
+	val := func() string {
+		if r.Chance(1, 7) {
+			return c17DisplayValue(r, r.Range(0, 7))
+		}
+		return Pick(r, c17OddValues)
+	}
 	gen := func(lo, hi int, shell bool) []string {
 		ws := []string{}
 		for i, n := 0, r.Range(lo, hi); i < n; i++ {
@@ -602,13 +705,13 @@ func c17GenFuzz(r *RNG) c17OptCase {
 			case 0:
 				ws = append(ws, o)
 			case 1:
-				ws = append(ws, o+"="+Pick(r, c17OddValues))
+				ws = append(ws, o+"="+val())
 			case 2:
-				ws = append(ws, Pick(r, c17OddValues))
+				ws = append(ws, val())
 			case 3:
-				ws = append(ws, o, Pick(r, c17OddValues), Pick(r, c17OddValues))
+				ws = append(ws, o, val(), val())
 			default:
-				ws = append(ws, o, Pick(r, c17OddValues))
+				ws = append(ws, o, val())
 			}
 		}
 		if shell && !c17CleanForShell(ws) {
